@@ -141,13 +141,20 @@ UnkObj == [s : Slots, w : Weights]
 Key1(o) == (o.s * 100 + o.z) * 10 + o.w
 Key2(o) == o.s * 10 + o.w
 
-Init == /\ ref \in [1..NRef -> RefObj]
-        /\ unk \in [1..NUnk -> UnkObj]
-        /\ \A k \in 1..(NRef - 1) : Key1(ref[k]) <= Key1(ref[k + 1])      \* object order is irrelevant (C13): one representative
-        /\ \A k \in 1..(NUnk - 1) : Key2(unk[k]) <= Key2(unk[k + 1])
-        /\ \A k \in 1..NRef : HasNearest(Centres, ref[k].s)               \* the tie-break is not fixed by any property
-        /\ \A k \in 1..NUnk : HasNearest(Centres, unk[k].s)
-        /\ \A i \in Patches : NumRecords(Centres, ref, i) > 0 /\ NumRecords(Centres, unk, i) > 0   \* empty patches are rejected (C09)
+(* admissible catalogs: one representative per object order (irrelevant, C13), no object
+   equidistant from two centres (the tie-break is not fixed by any property), no empty
+   patch (rejected at creation, C09).  All constraints are per catalog, so each set is
+   filtered once and Init is their product. *)
+RefSeqs == { r \in [1..NRef -> RefObj] :
+               /\ \A k \in 1..(NRef - 1) : Key1(r[k]) <= Key1(r[k + 1])
+               /\ \A k \in 1..NRef : HasNearest(Centres, r[k].s)
+               /\ \A i \in Patches : NumRecords(Centres, r, i) > 0 }
+UnkSeqs == { u \in [1..NUnk -> UnkObj] :
+               /\ \A k \in 1..(NUnk - 1) : Key2(u[k]) <= Key2(u[k + 1])
+               /\ \A k \in 1..NUnk : HasNearest(Centres, u[k].s)
+               /\ \A i \in Patches : NumRecords(Centres, u, i) > 0 }
+
+Init == ref \in RefSeqs /\ unk \in UnkSeqs
 
 Next == UNCHANGED vars
 Spec == Init /\ [][Next]_vars
@@ -215,6 +222,17 @@ Expected ==
       lost |-> \E s \in 1..NS, b \in Bins, i \in Patches, j \in Patches :
                   ~Linked(Centres, ref, unk, i, j) /\ Count(Centres, ref, unk, s, b, i, j) > 0 ]
 
+(* metadata only (cheap): for the checks that do not need the counts *)
+ExpectedMeta ==
+    [ ref |-> ref, unk |-> unk,
+      assign1 |-> [k \in 1..NRef |-> Nearest(Centres, ref[k].s)],
+      assign2 |-> [k \in 1..NUnk |-> Nearest(Centres, unk[k].s)],
+      num1 |-> [i \in Patches |-> NumRecords(Centres, ref, i)], num2 |-> [i \in Patches |-> NumRecords(Centres, unk, i)],
+      sumw1 |-> [i \in Patches |-> SumW(Centres, ref, i)], sumw2 |-> [i \in Patches |-> SumW(Centres, unk, i)],
+      rad1 |-> [i \in Patches |-> Radius(Centres, ref, i)], rad2 |-> [i \in Patches |-> Radius(Centres, unk, i)],
+      linked |-> { <<i, j>> \in Patches \X Patches : Linked(Centres, ref, unk, i, j) } ]
+
 ScenarioHash == SumF([k \in 1..NRef |-> Key1(ref[k]) * (k + 1)], 1..NRef) + SumF([k \in 1..NUnk |-> Key2(unk[k]) * (k + 3)], 1..NUnk)
 PrintScenario == (ScenarioHash % PrintEvery = 0) => PrintT(<<"scenario", Expected>>)
+PrintMeta == (ScenarioHash % PrintEvery = 0) => PrintT(<<"scenario", ExpectedMeta>>)
 =============================================================================
